@@ -29,10 +29,17 @@ class WrapFS(LocalFileSystem):
         self._lock = threading.Lock()
         self.fired = []
         self.per_name = {}
+        self.opens = []            # (path, mode) of every open
+        self.moves = []            # (source, destination) of every move / mv
 
     def _enter(self, name, args):
         with self._lock:
             self.calls.append((name, str(args[0]) if args else ""))
+            if name == "open":
+                self.opens.append((str(args[0]), str(args[1]) if len(args) > 1 else "rb"))
+            if name in ("move", "mv") and len(args) > 1:
+                if not self.moves or self.moves[-1] != (str(args[0]), str(args[1])):     # move() calls mv(): log once
+                    self.moves.append((str(args[0]), str(args[1])))
             k = len(self.calls)
             j = self.per_name[name] = self.per_name.get(name, 0) + 1
         if self.delay:
